@@ -68,6 +68,8 @@ def run(m: Model, r: Report, tier: str) -> None:
     r.check(not lm.acquisitions(rw), "R3", f"{rw.qualname}#lock-free", "the reader task takes a lock itself", loc=rw.loc)
 
     tr.reader_loop_total(r, "R3", rw, ("self._read_queue.put(", "self.send_alive_msg("))
+    tr.queues_unbounded(m, r, "R3", conn, rw)
+    tr.match_subject_total(m, r, "R3", rw)
 
     # ---------------------------------------------------------------- R4
     # roles of the frame parts: the tuple unpacked from _read_frame()
@@ -80,6 +82,19 @@ def run(m: Model, r: Report, tier: str) -> None:
     mt = [n for n in walk_no_nested(rw.node) if isinstance(n, ast.Match) and m.mtext(rw, n.subject, fr_roles) == "HDR.CWord"]
     if len(mt) != 1:
         raise AnalysisError(f"{rw.qualname}: match on hdr.CWord not found")
+    # the control word is looked at before any frame is discarded for missing parts: error words and alive checks are
+    # legal as short frames (no address header / payload)
+    loop_ = next(n for n in walk_no_nested(rw.node) if isinstance(n, ast.While))
+    pre = []
+    for st in loop_.body:
+        if st is mt[0]:
+            break
+        if isinstance(st, ast.If) and any(isinstance(x, (ast.Continue, ast.Break)) for x in ast.walk(st)) and \
+                any(role in m.mtext(rw, st.test, fr_roles) for role in ("REQ_HDR", "DATA")):
+            pre.append(m.mtext(rw, st.test, fr_roles))
+    r.check(mt[0] in loop_.body and not pre, "R4", f"{rw.qualname}#dispatch-before-filter",
+            f"frames are skipped on {pre} before the control word is dispatched: an alive check or an error/status word sent as a short frame "
+            "(no address header / payload) is swallowed instead of being answered / surfacing as a connection error", loc=rw.loc)
     arms = {ast.unparse(c.pattern): c for c in mt[0].cases}
     alive = arms.get("HSFZStatus.AliveCheck")
     r.check(alive is not None and any("await self.send_alive_msg()" in ast.unparse(s) for s in alive.body) and isinstance(alive.body[-1], ast.Continue),
